@@ -31,7 +31,7 @@ import traceback
 from . import build, driver, findings
 
 VERIF = build.VERIF
-NCPU = min(16, os.cpu_count() or 4)
+NCPU = int(os.environ.get("VP_NCPU", min(16, os.cpu_count() or 4)))
 
 
 class Stream:
@@ -67,8 +67,12 @@ def run_case(stream, case):
     try:
         r = stream.check(case)
     except CaseTimeout:
+        driver.discard()  # the model process may be one reply out of step: start a fresh one for the next case
         r = dict(ok=False, kind="oracle", clause="timeout", sig={"clause": "timeout"}, detail="no answer within %ss (watchdog)" % stream.timeout, nontrivial=True, desc="timeout")
     except Exception as e:  # harness or implementation raised where nothing should raise
+        driver.discard()
+        if "unknown function id" in str(e):  # the extracted driver predates this property's Entry.v (its build is broken): no verdict
+            return dict(ok=True, kind="oracle", clause="", sig={}, nontrivial=False, desc="model_unavailable", wall=0.0)
         r = dict(ok=False, kind="oracle", clause="exception:" + type(e).__name__, sig={"clause": "exception", "exc": type(e).__name__}, detail=traceback.format_exc()[-3000:], nontrivial=True, desc="exception")
     finally:
         signal.alarm(0)
@@ -81,8 +85,25 @@ def run_case(stream, case):
 
 
 def _worker(args):
-    sname, case = args
-    return run_case(_STREAMS[sname], case)
+    sname, chunk = args
+    return [run_case(_STREAMS[sname], case) for case in chunk]
+
+
+def _parallel_results(pool, s, cases):
+    """Yields one result per case, in order.  Cases are sent in chunks; a chunk whose worker does not answer within its
+    watchdog budget (+ slack) is reported as timed out (the worker is abandoned), so a hung worker cannot hang the check."""
+    import concurrent.futures as cf
+    k = max(1, min(64, len(cases) // (NCPU * 4) or 1))
+    chunks = [cases[i:i + k] for i in range(0, len(cases), k)]
+    futs = [pool.submit(_worker, (s.name, ch)) for ch in chunks]
+    for ch, f in zip(chunks, futs):
+        try:
+            for r in f.result(timeout=len(ch) * s.timeout + 60):
+                yield r
+        except (cf.TimeoutError, cf.process.BrokenProcessPool, Exception) as e:
+            for _ in ch:
+                yield dict(ok=False, kind="oracle", clause="timeout", sig={"clause": "timeout", "stream": s.name},
+                           detail="worker gave no answer (%s)" % type(e).__name__, nontrivial=True, desc="worker_hang", wall=0.0)
 
 
 def case_key(case):
@@ -143,6 +164,9 @@ def run_property(modname, tier, seed, replay=None):
     proof_break = None
     ev = dict(property_id=pid, tier=tier, seed=seed, level=level)
     cov = dict()
+    if not replay:  # replay files of earlier runs of this property are stale now
+        import shutil
+        shutil.rmtree(os.path.join(VERIF, "replays", pid), ignore_errors=True)
 
     # ---- 1/2/3: facts, proofs, extraction ----
     facts_info = None
@@ -171,9 +195,14 @@ def run_property(modname, tier, seed, replay=None):
         streams = [s for s in streams if s.name == body["stream"]]
     stats = {}
     pool = None
+    try:  # import the library before forking / before any watchdog alarm can interrupt a first import
+        import deephyper.evaluator, deephyper.hpo, deephyper.stopper, deephyper.ensemble, deephyper.skopt  # noqa: F401
+    except Exception:
+        pass
     if any(s.parallel for s in streams) and not replay:
-        ctx = mp.get_context("fork")
-        pool = ctx.Pool(NCPU, initializer=_worker_init, initargs=(modname, tier))
+        # non-daemonic workers (a case may start child processes: managers, process pools)
+        from concurrent.futures import ProcessPoolExecutor
+        pool = ProcessPoolExecutor(NCPU, mp_context=mp.get_context("fork"), initializer=_worker_init, initargs=(modname, tier))
     samples = []
     try:
         for s in streams:
@@ -187,7 +216,7 @@ def run_property(modname, tier, seed, replay=None):
                 cases = load_corpus(pid, s.name) + list(s.gen(rng, tier))
             seen, nt_seen = set(), set()
             if pool is not None and s.parallel and len(cases) > 1:
-                results = pool.imap(_worker, [(s.name, c) for c in cases], chunksize=max(1, min(64, len(cases) // (NCPU * 4) or 1)))
+                results = _parallel_results(pool, s, cases)
             else:
                 results = (run_case(s, c) for c in cases)
             fails = {}
@@ -211,6 +240,7 @@ def run_property(modname, tier, seed, replay=None):
             st["distinct"], st["nontrivial"] = len(seen), len(nt_seen)
             st["wall_s"] = round(time.time() - ts, 2)
             # ---- verdict per distinct failure signature ----
+            reported = set()
             for sigk, (c, r) in fails.items():
                 kf = findings.match(pid, r["sig"])
                 if kf is not None:
@@ -221,6 +251,10 @@ def run_property(modname, tier, seed, replay=None):
                 if kf is not None:
                     known_hits[kf["id"]] = kf
                     continue
+                k2 = json.dumps(r2["sig"], sort_keys=True, default=str)
+                if k2 in reported:
+                    continue
+                reported.add(k2)
                 if r2["kind"] == "oracle":
                     path = write_replay(pid, s.name, c2, r2)
                     violations.append(dict(stream=s.name, clause=r2["clause"], replay=path, found_input=True))
@@ -240,8 +274,14 @@ def run_property(modname, tier, seed, replay=None):
                         violations.append(dict(stream=s.name, clause=r2["clause"], replay=path, found_input=False))
     finally:
         if pool is not None:
-            pool.terminate()
-            pool.join()
+            # workers may be stuck in a hung case or hold children: do not wait for them
+            procs = list(getattr(pool, "_processes", {}).values())
+            pool.shutdown(wait=False, cancel_futures=True)
+            for pr in procs:
+                try:
+                    pr.kill()
+                except Exception:
+                    pass
 
     if proof_break and not any(v["found_input"] for v in violations):
         tgt = proof_break.get("target") or proof_break["stage"]
